@@ -3,6 +3,7 @@ import AITB.Model.Factored
 import AITB.Model.VE
 import AITB.Model.VETable
 import AITB.Model.GVE
+import AITB.Model.MaxPlus
 import AITB.Gen.C13Facts
 open AITB AITB.Factored AITB.VE
 
@@ -79,6 +80,25 @@ def approx (comp : String) : P String := do
     (List.range A.length).any (fun u => (List.range (A.getD u 0)).any (fun k => decide (truth < payoffL rs (setAt ia u k))))
   let v := v.diffIf improvable s!"{comp}.local_optimum action={ia} can be improved by a single agent"
   return v.render
+
+/-- `mpfull call iters keysets A rules | action value` : the MaxPlus message-passing model against the library.
+    Exact agreement is demanded when every division `norm / A[a]` is dyadic (all action counts in {1,2,4}); otherwise
+    a difference can come from double rounding of thirds and is reported as ill-conditioned, not as a verdict. -/
+def mpfull : P String := do
+  let _call ← P.nat
+  let iters ← P.nat
+  let keysets ← P.natss
+  let A ← P.nats; let rs ← rules; P.bar
+  let ia ← P.nats; let iv ← P.q; P.eof
+  if !(A.all (· > 0)) || !(rs.all (·.wfB A)) then return "skip bad_input" else
+  let struct : List Rule := keysets.map (fun k => ⟨k, [], 0⟩)
+  let g := lsUpdate A rs (lsMake A struct [])
+  let (ma, mv) := mpFull A g iters
+  let dyadic := A.all (fun d => d == 1 || d == 2 || d == 4)
+  if ma == ia && mv == iv then
+    return (if rs.isEmpty || A.length ≤ 1 then "ok trivial" else s!"ok mpfull iters{iters}")
+  else if !dyadic then return "skip ill_conditioned_division"
+  else return s!"diff MaxPlus.messagePassing model=({ma},{showQ mv}) impl=({ia},{showQ iv}) iters={iters}"
 
 /-! ### UCVE -/
 
@@ -189,6 +209,7 @@ def handle (toks : List String) : String :=
     | "ve" :: rest => P.run ve rest
     | "ls" :: rest => P.run (approx "LocalSearch") rest
     | "mp" :: rest => P.run (approx "MaxPlus") rest
+    | "mpfull" :: rest => P.run mpfull rest
     | "rils" :: rest => P.run (approx "ReusingIterativeLocalSearch") rest
     | "ucve" :: rest => P.run ucve rest
     | "move" :: rest => P.run move rest
